@@ -36,6 +36,7 @@ func init() {
 	ops["rt"] = opRT
 	ops["reenc"] = opReenc
 	ops["det"] = opDet
+	ops["spec"] = opSpec
 }
 
 func execOp(line string) (res string) {
